@@ -200,6 +200,13 @@ fn gen(rng: &mut Rng, n: usize) -> Vec<Case> {
             out.push(q(&[b], b"", fully));
         }
     }
+    // a first batch of random names early, so that the git oracle (which sees a prefix of the
+    // case list) compares more than single bytes
+    for _ in 0..120 {
+        let s = gen_name(rng);
+        let rest = gen_rest(rng);
+        out.push(q(&s, &rest, rng.chance(2, 3)));
+    }
     for b in 0..=255u8 {
         out.push(q(&[b, b'7'], b"1\"", true));
         out.push(q(&[b'a', b, b], b"\"", true));
@@ -413,7 +420,10 @@ fn git(c: &Case) -> String {
         }
         ch.wait_with_output().expect("git output").stdout
     };
-    run(&["init", "-q", "."], None);
+    // a minimal repository by hand (cheaper than `git init`)
+    std::fs::create_dir_all(dir.join(".git/objects")).expect("mkdir");
+    std::fs::create_dir_all(dir.join(".git/refs")).expect("mkdir");
+    std::fs::write(dir.join(".git/HEAD"), "ref: refs/heads/main\n").expect("HEAD");
     let mut line = b"\"".to_vec();
     for b in s {
         line.extend_from_slice(format!("\\{:03o}", b).as_bytes());
